@@ -249,9 +249,19 @@ def reduceRunning : Fn → List Entry → Rat
   | .count, _ => 0
 
 /-- value of group `g` at bucket `t`; `none` = no such (group, timestamp) in the result.
-count: with grouping fields every entry is counted (`grpID-i` ids); without fields
-`timestampToCount[ts]++` runs once per DISTINCT series id. -/
+count: every entry (= the downsampled value of one series in the bucket) is counted — with grouping fields through
+the `grpID-i` ids, without fields `timestampToCount[ts] += len(entries)` (patch c09-26). -/
 def aggAt (q : Query) (ss : List Series) (g : Str) (t : Nat) : Option Rat :=
+  let es := entriesAt q ss g t
+  if es.isEmpty then none
+  else some (match q.fn with
+    | .count => (es.length : Rat)
+    | fn => reduceRunning fn (es.map (·.2)))
+
+/-- BEFORE patch c09-26: without grouping fields `timestampToCount[ts]++` ran once per DISTINCT series id, so series
+that share an id (the ids carry only the labels of the query's filters, and "*" for a regex on the metric name)
+were counted once -/
+def aggAtOld (q : Query) (ss : List Series) (g : Str) (t : Nat) : Option Rat :=
   let es := entriesAt q ss g t
   if es.isEmpty then none
   else some (match q.fn with
